@@ -48,7 +48,8 @@ func VerifyUnit(ld *Loaded, u *FuncUnit, cfg *Config) (res *UnitResult) {
 		res.Trusted = true
 		return res
 	}
-	if u.C.Inline {
+	if u.C.Inline || u.Drifted {
+		// (a drifted unit is reported undecided by the drift list; it is not verified)
 		res.Inlined = true
 		return res
 	}
